@@ -20,6 +20,9 @@ fn keep_property(g: Groups, prop: &str) -> Groups {
 /// All declaration sets of size <= `max` over `pool` with sets of size 3 only
 /// over `pool3`; partitioned by the first declaration.
 fn direct_sweep(pool: &[String], pool3: &[String], max: usize, threads: usize, seed: u64) -> (Groups, DirectStats) {
+    if !cfg!(feature = "direct") {
+        return (Groups::new(), DirectStats::default());
+    }
     let res = par::run_simple(pool.len(), threads, seed, || (Groups::new(), DirectStats::default()), |st, i| {
         let a = pool[i].as_str();
         check_set_direct(&[a], &mut st.0, &mut st.1);
@@ -171,7 +174,7 @@ pub fn main_c01(registry: Vec<Entry>) {
     );
     out.cov(
         "bounds",
-        json!({"direct": {"pool": "P3 (paths of depth 1..3 over A, Bb, TeST, each node optional or not, command and query: 516) + special pool",
+        json!({"direct": {"built": cfg!(feature = "direct"), "pool": "P3 (paths of depth 1..3 over A, Bb, TeST, each node optional or not, command and query: 516) + special pool",
                           "special_pool": SPECIAL, "set_sizes": "all ordered pairs; ordered triples over P1 (quick) / P2 (thorough)",
                           "sets": ds.sets, "sets_without_expectation_an_unreachable_declaration_written_twice": ds.unspecified, "accepted": ds.accepted, "rejected": ds.rejected, "trie_entries_compared": ds.trie_entries},
                "compiled": {"interfaces": cs.interfaces, "trie_entries_compared": cs.trie_entries, "headers_executed": cs.headers,
@@ -238,7 +241,7 @@ pub fn main_c14(registry: Vec<Entry>) {
     );
     out.cov(
         "bounds",
-        json!({"direct": {"pool": "P3 (516 declarations) + special pool", "special_pool": SPECIAL,
+        json!({"direct": {"built": cfg!(feature = "direct"), "pool": "P3 (516 declarations) + special pool", "special_pool": SPECIAL,
                           "sets": ds.sets, "sets_without_expectation_an_unreachable_declaration_written_twice": ds.unspecified, "accepted": ds.accepted, "rejected": ds.rejected, "triples_over": if thorough { "P2" } else { "P1" }},
                "compiled": {"accepted_sets_built": accepted, "colliding_sets": n_rej, "rejected_with_expected_error": n_match}}),
     );
